@@ -120,3 +120,629 @@ Proof.
   try (specialize (I2 eq_refl); lia);
   try (specialize (I3 eq_refl); congruence).
 Qed.
+
+(* ---------- reboot-without-run monitor ---------- *)
+Definition prewait (p : pc) : bool :=
+  match p with PTop | PZero | PLock | PHeld | PSleep | PRecheck => true | _ => false end.
+Definition early_ep (p : pc) : bool :=
+  match p with PInitBody | PC1a | PC1b => true | _ => false end.
+Definition mid_ep (p : pc) : bool :=
+  match p with PC1c | PStepBody | PInc => true | _ => false end.
+
+Definition InvRb (c : config) : Prop :=
+  let '(mk p r s t n w tr) := c in
+  match rbm tr with
+  | None => True
+  | Some 0 => r = false /\ (inep p = true -> s = true) /\ (p = PInit -> s = true \/ t = true)
+  | Some 1 => r = false /\ p <> PInit /\ p <> PStep
+              /\ (early_ep p = true -> s = true \/ t = true)
+              /\ (mid_ep p = true -> s = true)
+              /\ (prewait p = true -> t = false)
+  | Some _ => False
+  end.
+
+Lemma invrb_init : InvRb init.
+Proof. exact I. Qed.
+
+Lemma invrb_step c m c' : InvRb c -> step c m = Some c' -> InvRb c'.
+Proof.
+  intros I H. step_cases c m H;
+  destruct (rbm tr) as [[|[|k]]|]; simpl in *;
+  try contradiction;
+  try (destruct I as (I1 & I2 & I3 & I4 & I5 & I6));
+  try (destruct I as (I1 & I2 & I3));
+  repeat split; intros; subst; simpl in *;
+  try discriminate; try congruence; auto.
+  all: try (specialize (I2 eq_refl); congruence).
+  all: try (specialize (I5 eq_refl); congruence).
+  all: try (specialize (I6 eq_refl); congruence).
+  all: try (destruct (I4 eq_refl); congruence).
+  all: try (destruct (I3 eq_refl); congruence).
+Qed.
+
+(* ---------- all invariants together; goodness of every history prefix ---------- *)
+Definition Inv (c : config) : Prop := Inv1 c /\ InvTd c /\ InvPend c /\ InvRb c.
+
+Lemma inv_init : Inv init.
+Proof. repeat split; auto using inv1_init, invtd_init, invpend_init, invrb_init; intros; discriminate. Qed.
+
+Lemma inv_step c m c' : Inv c -> step c m = Some c' -> Inv c'.
+Proof.
+  intros (A & B & C & D) H.
+  repeat split; eauto using inv1_step, invtd_step, invpend_step, invrb_step.
+Qed.
+
+Lemma reachable_inv c : reachable c -> Inv c.
+Proof. induction 1; eauto using inv_init, inv_step. Qed.
+
+Lemma inv_le1 c : Inv c ->
+  le1 (pend (c_trace c)) = true /\ le1 (rbm (c_trace c)) = true /\ le1 (tdm (c_trace c)) = true.
+Proof.
+  destruct c as [p r s t n w tr]. intros (_ & B & C & D). simpl in *.
+  repeat split.
+  - destruct (pend tr) as [[|[|k]]|]; auto. lia.
+  - destruct (rbm tr) as [[|[|k]]|]; auto.
+  - destruct (tdm tr) as [[|[|k]]|]; auto. lia.
+Qed.
+
+Lemma eqb_refl_ev k : ev_eqb (EStep k) (EStep k) = true.
+Proof. simpl. apply Nat.eqb_refl. Qed.
+
+(* a move appends at most one event, and that event is admissible after the old trace *)
+Lemma trace_step c m c' : Inv1 c -> step c m = Some c' ->
+  c_trace c' = c_trace c \/ exists e, c_trace c' = e :: c_trace c /\ head_ok e (c_trace c) = true.
+Proof.
+  intros I H. step_cases c m H; auto; right; eexists; split; try reflexivity; simpl; auto;
+  destruct I as (I1 & I2 & I3 & I4 & I5); simpl in *.
+  all: try (destruct r; auto; destruct (rae tr) as [[|]|]; auto; specialize (I3 eq_refl); discriminate).
+  - destruct I4 as [_ I4]. destruct (last_thr tr) as [[]|]; simpl; auto.
+  - rewrite I5. destruct n; simpl in I4; rewrite I4; simpl; auto. rewrite Nat.eqb_refl. auto.
+Qed.
+
+Lemma all_good_cons e tr : all_good (e :: tr) = good (e :: tr) && all_good tr.
+Proof. reflexivity. Qed.
+
+Lemma reachable_all_good c : reachable c -> all_good (c_trace c) = true.
+Proof.
+  induction 1 as [|c m c' R IH H]; [reflexivity|].
+  pose proof (reachable_inv _ R) as Ic.
+  pose proof (inv_step _ _ _ Ic H) as Ic'.
+  destruct (trace_step _ _ _ (proj1 Ic) H) as [E|(e & E & Hh)].
+  - rewrite E. exact IH.
+  - destruct (inv_le1 _ Ic') as (P1 & P2 & P3). rewrite E in *.
+    rewrite all_good_cons, IH. unfold good. rewrite P1, P2, P3, Hh. reflexivity.
+Qed.
+
+(* ---------- from the monitors to statements about the trace ---------- *)
+Lemma all_good_app pre suf : all_good (pre ++ suf) = true -> all_good suf = true.
+Proof.
+  induction pre as [|e pre IH]; simpl; auto.
+  intros H. apply andb_true_iff in H. tauto.
+Qed.
+
+Lemma all_good_good tr : all_good tr = true -> good tr = true.
+Proof. destruct tr; [reflexivity|]. rewrite all_good_cons. intros H; apply andb_true_iff in H; tauto. Qed.
+
+Lemma good_parts tr : good tr = true ->
+  le1 (pend tr) = true /\ le1 (rbm tr) = true /\ le1 (tdm tr) = true
+  /\ match tr with [] => True | e :: t => head_ok e t = true end.
+Proof.
+  unfold good. intros H. repeat (apply andb_true_iff in H; destruct H as [H ?]).
+  repeat split; auto. destruct tr; auto.
+Qed.
+
+Lemma reachable_good_suffix c pre suf : reachable c -> c_trace c = pre ++ suf -> good suf = true.
+Proof.
+  intros R E. apply all_good_good. apply (all_good_app pre).
+  rewrite <- E. apply reachable_all_good; auto.
+Qed.
+
+Lemma runreq_In tr : runreq tr = true -> In (ECmd Run) tr.
+Proof.
+  induction tr as [|e tr IH]; simpl; [discriminate|].
+  destruct e as [| | |[]| |]; auto.
+Qed.
+
+Lemma opt_is_eq o e : is_thread_event e = true -> opt_is o e = true -> o = Some e.
+Proof.
+  destruct o as [x|]; simpl; [|discriminate].
+  destruct x, e; simpl; try discriminate; auto.
+  intros _ H. apply Nat.eqb_eq in H. congruence.
+Qed.
+
+(* 1. no filtering step before run is first requested *)
+Lemma no_step_before_run c pre k suf :
+  reachable c -> c_trace c = pre ++ EStep k :: suf -> In (ECmd Run) suf.
+Proof.
+  intros R E. pose proof (reachable_good_suffix _ _ _ R E) as G.
+  apply good_parts in G. destruct G as (_ & _ & _ & G). simpl in G.
+  apply runreq_In. destruct k; apply andb_true_iff in G; tauto.
+Qed.
+
+(* 2. epochs: the thread event preceding each thread event *)
+Definition pred_ok (e : event) (before : option event) : Prop :=
+  match e with
+  | EInit => before <> Some EExit
+  | EStep 0 => before = Some EInit
+  | EStep (S k) => before = Some (EStep k)
+  | EExit => before = Some EInit \/ exists k, before = Some (EStep k)
+  | _ => True
+  end.
+
+Lemma epochs c pre e suf :
+  reachable c -> c_trace c = pre ++ e :: suf -> pred_ok e (last_thr suf).
+Proof.
+  intros R E. pose proof (reachable_good_suffix _ _ _ R E) as G.
+  apply good_parts in G. destruct G as (_ & _ & _ & G). simpl in G.
+  destruct e as [|k| | | |]; simpl in *; auto.
+  - intros X. rewrite X in G. discriminate.
+  - destruct k; apply andb_true_iff in G; destruct G as [G _]; apply opt_is_eq in G; auto.
+  - destruct (last_thr suf) as [[]|]; simpl in G; try discriminate; eauto.
+Qed.
+
+(* counting *)
+Fixpoint count_steps (l : list event) : nat :=
+  match l with [] => 0 | EStep _ :: t => S (count_steps t) | _ :: t => count_steps t end.
+Fixpoint count_init_step (l : list event) : nat :=
+  match l with [] => 0 | EStep _ :: t | EInit :: t => S (count_init_step t) | _ :: t => count_init_step t end.
+Fixpoint no_init_exit (l : list event) : Prop :=
+  match l with [] => True | EInit :: _ | EExit :: _ => False | _ :: t => no_init_exit t end.
+Fixpoint no_run_teardown (l : list event) : Prop :=
+  match l with [] => True | ECmd Run :: _ | ECmd Teardown :: _ => False | _ :: t => no_run_teardown t end.
+
+Lemma count_steps_le l : count_steps l <= count_init_step l.
+Proof. induction l as [|[] l IH]; simpl; lia. Qed.
+
+Lemma pend_seg seg k suf : (k = Reset \/ k = Reboot) -> no_init_exit seg ->
+  exists n, pend (seg ++ ECmd k :: suf) = Some n /\ count_steps seg <= n.
+Proof.
+  intros K. induction seg as [|e seg IH]; simpl.
+  - intros _. destruct K; subst; destruct (pend suf); eauto with arith.
+  - destruct e as [| | |[]| |]; simpl; try tauto; intros N;
+    destruct (IH N) as (n & -> & L); simpl; eauto with arith.
+Qed.
+
+(* 3a. after reset/reboot: at most one further step before the next init or exit *)
+Lemma reset_honoured c post seg k suf :
+  reachable c -> c_trace c = post ++ seg ++ ECmd k :: suf -> (k = Reset \/ k = Reboot) ->
+  no_init_exit seg -> count_steps seg <= 1.
+Proof.
+  intros R E K N. pose proof (reachable_good_suffix _ _ _ R E) as G.
+  apply good_parts in G. destruct G as (G & _).
+  destruct (pend_seg seg k suf K N) as (n & P & L). rewrite P in G.
+  destruct n as [|[|n]]; simpl in G; try discriminate; lia.
+Qed.
+
+Lemma rbm_seg seg suf : no_run_teardown seg ->
+  exists n, rbm (seg ++ ECmd Reboot :: suf) = Some n /\ count_init_step seg <= n.
+Proof.
+  induction seg as [|e seg IH]; simpl.
+  - intros _. destruct (rbm suf); eauto with arith.
+  - destruct e as [| | |[]| |]; simpl; try tauto; intros N;
+    destruct (IH N) as (n & -> & L); simpl; eauto with arith.
+Qed.
+
+(* 3b. after reboot, until run (or teardown) is requested: at most one initialisation or step at all *)
+Lemma reboot_waits_for_run c post seg suf :
+  reachable c -> c_trace c = post ++ seg ++ ECmd Reboot :: suf ->
+  no_run_teardown seg -> count_init_step seg <= 1.
+Proof.
+  intros R E N. pose proof (reachable_good_suffix _ _ _ R E) as G.
+  apply good_parts in G. destruct G as (_ & G & _).
+  destruct (rbm_seg seg suf N) as (n & P & L). rewrite P in G.
+  destruct n as [|[|n]]; simpl in G; try discriminate; lia.
+Qed.
+
+Lemma tdm_seg seg suf :
+  exists n, tdm (seg ++ ECmd Teardown :: suf) = Some n /\ count_init_step seg <= n.
+Proof.
+  induction seg as [|e seg IH]; simpl.
+  - destruct (tdm suf); eauto with arith.
+  - destruct IH as (n & P & L). destruct e as [| | |[]| |]; simpl; rewrite P; simpl; eauto with arith.
+Qed.
+
+(* 4. after teardown has been requested: at most one further initialisation or step, ever *)
+Lemma teardown_one_step c post seg suf :
+  reachable c -> c_trace c = post ++ seg ++ ECmd Teardown :: suf ->
+  count_init_step seg <= 1 /\ count_steps seg <= 1.
+Proof.
+  intros R E. pose proof (reachable_good_suffix _ _ _ R E) as G.
+  apply good_parts in G. destruct G as (_ & _ & G & _).
+  destruct (tdm_seg seg suf) as (n & P & L). rewrite P in G.
+  pose proof (count_steps_le seg).
+  destruct n as [|[|n]]; simpl in G; try discriminate; lia.
+Qed.
+
+(* 5. after the thread's final store *)
+Lemma after_exit_silent post suf : all_good (post ++ EExit :: suf) = true ->
+  last_thr (post ++ EExit :: suf) = Some EExit /\ forall e, In e post -> is_thread_event e = false.
+Proof.
+  induction post as [|e post IH]; simpl.
+  - intros _. split; auto. intros ? [].
+  - intros H. apply andb_true_iff in H. destruct H as [G A].
+    destruct (IH A) as (L & Q). apply good_parts in G. destruct G as (_ & _ & _ & G).
+    destruct e as [|k| | | |]; simpl in *; try (destruct k); try rewrite L in G; simpl in G; try discriminate;
+      (split; [exact L | intros x [<-|X]; auto]).
+Qed.
+
+Lemma rae_seg post suf : rae (post ++ EExit :: suf) = Some false \/ In (ECmd Run) post.
+Proof.
+  induction post as [|e post IH]; simpl; auto.
+  destruct IH as [IH|IH]; auto.
+  destruct e as [| | |[]| |]; simpl; auto.
+Qed.
+
+Lemma exited_quiescent c post suf :
+  reachable c -> c_trace c = post ++ EExit :: suf ->
+  (forall e, In e post -> is_thread_event e = false)
+  /\ (c_run c = true -> In (ECmd Run) post)
+  /\ (forall post2 post1, post = post2 ++ EQRun true :: post1 -> In (ECmd Run) post1).
+Proof.
+  intros R E. pose proof (reachable_all_good _ R) as A. rewrite E in A.
+  split; [apply (after_exit_silent _ _ A)|]. split.
+  - intros Hr. destruct (rae_seg post suf) as [X|X]; auto.
+    pose proof (reachable_inv _ R) as (I1 & _). destruct c as [p r s t n w tr]; simpl in *.
+    destruct I1 as (_ & _ & I3 & _). subst tr. rewrite (I3 X) in Hr. discriminate.
+  - intros post2 post1 ->. rewrite <- app_assoc in A. apply all_good_app in A. simpl in A.
+    apply andb_true_iff in A. destruct A as [G _]. apply good_parts in G.
+    destruct G as (_ & _ & _ & G). simpl in G.
+    destruct (rae_seg post1 suf) as [X|X]; auto. rewrite X in G. discriminate.
+Qed.
+
+Lemma exited_pc c : reachable c ->
+  (In EExit (c_trace c) <-> (c_pc c = PDone \/ c_pc c = PExited)).
+Proof.
+  induction 1 as [|c m c' R IH H].
+  - simpl. split; [tauto|]. intros [X|X]; discriminate.
+  - revert IH. step_cases c m H; intros IH; split; intros X;
+      try (destruct X as [X|X]; try discriminate X);
+      try (apply IH in X; destruct X; discriminate);
+      try (right; apply IH; auto; fail);
+      try tauto; auto;
+      try (destruct b; try destruct r; try destruct s; try destruct t; destruct X; discriminate).
+Qed.
+
+(* ---------- bounded exit ---------- *)
+(* upper bound on the thread's own moves to PExited once teardown_ is set *)
+Definition dist (p : pc) : nat :=
+  match p with
+  | PExited => 0 | PDone => 1 | PFinal => 2 | PC2d => 3 | PC2c => 4 | PC2b => 5 | PC2a => 6 | PAfter => 7
+  | PC1b => 8 | PC1a => 9 | PInc => 10 | PStepBody => 11 | PStep => 12 | PC1c => 13
+  | PInitBody => 10 | PInit => 11 | PHeld => 12 | PRecheck => 12 | PSleep => 13 | PLock => 13
+  | PZero => 14 | PTop => 15
+  end.
+
+Definition exit_bound : nat := 15.
+
+Lemma dist_bound p : dist p <= exit_bound.
+Proof. destruct p; simpl; unfold exit_bound; lia. Qed.
+
+Lemma dist_0 p : dist p = 0 <-> p = PExited.
+Proof. destruct p; simpl; split; intros; try discriminate; auto. Qed.
+
+Definition is_thread_move (m : move) : bool :=
+  match m with MThread _ | MSpurious => true | MCmd _ => false end.
+
+Fixpoint thread_moves (ms : list move) : nat :=
+  match ms with [] => 0 | m :: t => (if is_thread_move m then 1 else 0) + thread_moves t end.
+
+(* the thread is never disabled while teardown is requested and it has not exited *)
+Lemma td_thread_enabled c b : reachable c -> c_td c = true -> c_pc c <> PExited ->
+  exists c', step c (MThread b) = Some c'.
+Proof.
+  intros R T N. pose proof (reachable_inv _ R) as (I1 & _).
+  destruct c as [p r s t n w tr]; simpl in *. destruct I1 as (_ & I2 & _). subst t.
+  destruct p; simpl; eauto; try congruence.
+  - rewrite orb_true_r. eauto.
+  - destruct w; eauto. destruct (I2 eq_refl eq_refl); discriminate.
+  - rewrite orb_true_r. eauto.
+Qed.
+
+Lemma td_move c m c' : c_td c = true -> step c m = Some c' ->
+  c_td c' = true /\ dist (c_pc c') + (if is_thread_move m then 1 else 0) <= dist (c_pc c).
+Proof.
+  intros T H. step_cases c m H; subst; try discriminate; split; auto; try lia;
+  try (destruct b; simpl; lia); try (destruct r; simpl; lia); try (destruct s; simpl; lia).
+  all: try (rewrite orb_true_r in *; discriminate).
+Qed.
+
+Lemma run_moves_reachable c ms c' : reachable c -> run_moves c ms = Some c' -> reachable c'.
+Proof.
+  revert c. induction ms as [|m ms IH]; simpl; intros c R H.
+  - congruence.
+  - destruct (step c m) as [c1|] eqn:E; [|discriminate].
+    apply (IH c1); auto. eapply R_step; eauto.
+Qed.
+
+Lemma td_run c ms c' : c_td c = true -> run_moves c ms = Some c' ->
+  c_td c' = true /\ dist (c_pc c') + thread_moves ms <= dist (c_pc c).
+Proof.
+  revert c. induction ms as [|m ms IH]; simpl; intros c T H.
+  - injection H as <-. split; auto. lia.
+  - destruct (step c m) as [c1|] eqn:E; [|discriminate].
+    destruct (td_move _ _ _ T E) as (T1 & D1).
+    destruct (IH _ T1 H) as (T2 & D2). split; auto. lia.
+Qed.
+
+(* every move only prepends events *)
+Lemma step_trace_ext c m c' : step c m = Some c' -> exists post, c_trace c' = post ++ c_trace c.
+Proof.
+  intros H. step_cases c m H;
+  try (exists []; reflexivity); try (eexists [_]; reflexivity).
+Qed.
+
+Lemma run_trace_ext c ms c' : run_moves c ms = Some c' -> exists post, c_trace c' = post ++ c_trace c.
+Proof.
+  revert c. induction ms as [|m ms IH]; simpl; intros c H.
+  - injection H as <-. exists []. reflexivity.
+  - destruct (step c m) as [c1|] eqn:E; [|discriminate].
+    destruct (step_trace_ext _ _ _ E) as (p1 & E1). destruct (IH _ H) as (p2 & E2).
+    exists (p2 ++ p1). rewrite E2, E1, app_assoc. reflexivity.
+Qed.
+
+Lemma tdm_some_In tr : tdm tr <> None -> exists seg suf, tr = seg ++ ECmd Teardown :: suf.
+Proof.
+  induction tr as [|e tr IH]; simpl; [congruence|].
+  destruct e as [| | |k| |]; try (intros H;
+    assert (X : tdm tr <> None) by (destruct (tdm tr); simpl in *; congruence);
+    destruct (IH X) as (seg & suf & ->); eexists (_ :: seg), suf; reflexivity).
+  destruct k; try (intros H; destruct (IH H) as (seg & suf & ->); eexists (_ :: seg), suf; reflexivity).
+  intros _. exists [], tr. reflexivity.
+Qed.
+
+Lemma count_steps_app a b : count_steps (a ++ b) = count_steps a + count_steps b.
+Proof. induction a as [|[] a IH]; simpl; lia. Qed.
+
+(* bounded exit, clause (a): teardown requested *)
+Lemma bounded_exit_teardown c ms c' :
+  reachable c -> c_td c = true -> run_moves c ms = Some c' ->
+  (* never disabled before it has exited *)
+  (c_pc c' <> PExited -> forall b, exists c'', step c' (MThread b) = Some c'')
+  (* at most exit_bound own moves, and then it has exited *)
+  /\ thread_moves ms <= dist (c_pc c) /\ dist (c_pc c) <= exit_bound
+  /\ (dist (c_pc c) <= thread_moves ms -> c_pc c' = PExited)
+  (* at most one of them starts a filtering step *)
+  /\ (exists post, c_trace c' = post ++ c_trace c /\ count_steps post <= 1).
+Proof.
+  intros R T H. destruct (td_run _ _ _ T H) as (T' & D).
+  pose proof (run_moves_reachable _ _ _ R H) as R'.
+  split; [intros N b; apply td_thread_enabled; auto|].
+  split; [lia|]. split; [apply dist_bound|]. split; [intros; apply dist_0; lia|].
+  destruct (run_trace_ext _ _ _ H) as (post & E). exists post. split; auto.
+  pose proof (reachable_inv _ R) as (_ & ITd & _).
+  assert (X : tdm (c_trace c) <> None).
+  { destruct c as [p r s t n w tr]; simpl in *. destruct (tdm tr); congruence. }
+  destruct (tdm_some_In _ X) as (seg & suf & Etr).
+  assert (E2 : c_trace c' = [] ++ (post ++ seg) ++ ECmd Teardown :: suf).
+  { rewrite E, Etr, app_assoc. reflexivity. }
+  destruct (teardown_one_step _ _ _ _ R' E2) as (_ & L).
+  rewrite count_steps_app in L. lia.
+Qed.
+
+(* clause (b): run_condition has turned false for good and the thread is past the wait *)
+Definition distb (p : pc) : option nat :=
+  match p with
+  | PExited => Some 0 | PDone => Some 1 | PFinal => Some 2 | PC2a => Some 3 | PAfter => Some 4
+  | PC1a => Some 5 | PInc => Some 6 | PStepBody => Some 7 | PStep => Some 8 | PC1c => Some 9 | PC1b => Some 10
+  | PInitBody => Some 6 | PInit => Some 7
+  | _ => None
+  end.
+
+Definition exit_bound_rc : nat := 10.
+
+Definition rc_false (m : move) : bool :=
+  match m with MThread true => false | _ => true end.
+
+Definition may_step (p : pc) : nat :=
+  match p with PC1b | PC1c | PStep => 1 | _ => 0 end.
+
+Lemma rcf_enabled c d : distb (c_pc c) = Some d -> c_pc c <> PExited ->
+  exists c', step c (MThread false) = Some c'.
+Proof.
+  destruct c as [p r s t n w tr]; simpl. destruct p; simpl; intros; try discriminate; eauto; congruence.
+Qed.
+
+Lemma rcf_move c m c' d : distb (c_pc c) = Some d -> rc_false m = true -> step c m = Some c' ->
+  exists d' post, distb (c_pc c') = Some d' /\ d' + (if is_thread_move m then 1 else 0) <= d
+    /\ c_trace c' = post ++ c_trace c /\ count_steps post + may_step (c_pc c') <= may_step (c_pc c).
+Proof.
+  intros D F H. step_cases c m H; simpl in *; try discriminate;
+  injection D as <-;
+  try (eexists _, []; simpl; repeat split; try reflexivity; simpl; lia);
+  try (eexists _, [_]; simpl; repeat split; try reflexivity; simpl; lia);
+  try (destruct s; eexists _, []; simpl; repeat split; try reflexivity; simpl; lia);
+  try (destruct t; eexists _, []; simpl; repeat split; try reflexivity; simpl; lia).
+Qed.
+
+Lemma bounded_exit_rc_false c ms c' d :
+  distb (c_pc c) = Some d -> forallb rc_false ms = true -> run_moves c ms = Some c' ->
+  (c_pc c' <> PExited -> exists c'', step c' (MThread false) = Some c'')
+  /\ thread_moves ms <= d /\ d <= exit_bound_rc
+  /\ (d <= thread_moves ms -> c_pc c' = PExited)
+  /\ (exists post, c_trace c' = post ++ c_trace c /\ count_steps post <= 1).
+Proof.
+  intros D F H.
+  assert (G : exists d' post, distb (c_pc c') = Some d' /\ d' + thread_moves ms <= d
+              /\ c_trace c' = post ++ c_trace c /\ count_steps post + may_step (c_pc c') <= may_step (c_pc c)).
+  { revert c d D H. induction ms as [|m ms IH]; simpl; intros c d D H.
+    - injection H as <-. exists d, []. simpl. repeat split; auto; lia.
+    - simpl in F. apply andb_true_iff in F. destruct F as [F1 F2].
+      destruct (step c m) as [c1|] eqn:E; [|discriminate].
+      destruct (rcf_move _ _ _ _ D F1 E) as (d1 & p1 & D1 & L1 & E1 & S1).
+      destruct (IH F2 _ _ D1 H) as (d2 & p2 & D2 & L2 & E2 & S2).
+      exists d2, (p2 ++ p1). repeat split; auto; try lia.
+      + rewrite E2, E1, app_assoc. reflexivity.
+      + rewrite count_steps_app. lia. }
+  destruct G as (d' & post & D' & L & E & S).
+  split; [intros N; eapply rcf_enabled; eauto|].
+  split; [lia|]. split.
+  { destruct (c_pc c); simpl in D; try discriminate; injection D as <-; unfold exit_bound_rc; lia. }
+  split.
+  { intros X. assert (d' = 0) by lia. subst d'. destruct (c_pc c'); simpl in D'; try discriminate; auto. }
+  exists post. split; auto. assert (may_step (c_pc c) <= 1) by (destruct (c_pc c); simpl; lia). lia.
+Qed.
+
+(* ---------- the executable word semantics stays inside [reachable] ---------- *)
+Lemma R_thread b c c' : reachable c -> tstep b c = Some c' -> reachable c'.
+Proof. intros R H. apply (R_step _ c (MThread b)); auto. Qed.
+
+Lemma settle_reachable f c : reachable c -> reachable (settle f c).
+Proof.
+  revert c. induction f as [|f IH]; simpl; intros c R; auto.
+  destruct (observable (c_pc c)); auto.
+  destruct (tstep false c) as [c1|] eqn:E; auto.
+  apply IH. eapply R_thread; eauto.
+Qed.
+
+Lemma thread_token_reachable b c : reachable c -> reachable (thread_token b c).
+Proof.
+  intros R. unfold thread_token. change (step c (MThread b)) with (tstep b c). destruct (tstep b c) as [c1|] eqn:E; auto.
+  apply settle_reachable. eapply R_thread; eauto.
+Qed.
+
+Lemma wake_reachable c : reachable c -> reachable (wake c).
+Proof.
+  intros R. unfold wake. destruct (c_pc c); auto. destruct (c_woken c); auto.
+  apply thread_token_reachable; auto.
+Qed.
+
+Lemma do_token_reachable c t : reachable c -> reachable (do_token c t).
+Proof.
+  intros R. destruct t; unfold do_token; auto using thread_token_reachable.
+  destruct (step c (MCmd k)) as [c1|] eqn:E; auto.
+  apply wake_reachable. eapply R_step; eauto.
+Qed.
+
+Lemma run_word_reachable w c : reachable c -> reachable (run_word c w).
+Proof.
+  revert c. induction w as [|t w IH]; simpl; intros c R; auto.
+  apply IH. apply do_token_reachable; auto.
+Qed.
+
+Lemma free_run_reachable f c : reachable c -> reachable (free_run f c).
+Proof.
+  revert c. induction f as [|f IH]; simpl; intros c R; auto.
+  destruct (tstep true c) as [c1|] eqn:E; auto.
+  apply IH. eapply R_thread; eauto.
+Qed.
+
+Lemma finish_reachable c : reachable c -> reachable (finish c).
+Proof.
+  intros R. unfold finish.
+  apply do_token_reachable. apply free_run_reachable.
+  set (c1 := match c_pc c with PHeld => thread_token true c | _ => c end).
+  assert (R1 : reachable c1) by (unfold c1; destruct (c_pc c); auto using thread_token_reachable).
+  destruct (c_pc c1); auto using do_token_reachable.
+Qed.
+
+(* a run of the executable step function is a derivation of [reachable], and conversely *)
+Lemma reachable_iff_run c : reachable c <-> exists ms, run_moves init ms = Some c.
+Proof.
+  split.
+  - induction 1 as [|c m c' R (ms & IH) H].
+    + exists []. reflexivity.
+    + exists (ms ++ [m]). revert IH. generalize init. induction ms as [|m0 ms IHms]; simpl; intros c0 IH.
+      * injection IH as ->. unfold reachable in *. fold step in H. rewrite H. reflexivity.
+      * destruct (step c0 m0); [|discriminate]. auto.
+  - intros (ms & H). eapply run_moves_reachable; eauto. constructor.
+Qed.
+
+(* the thread is always brought to a schedule point *)
+Lemma settle_observable c : observable (c_pc (settle 8 c)) = true.
+Proof. destruct c as [p r s t n w tr]. destruct p, r, s, t; reflexivity. Qed.
+
+Lemma thread_token_observable b c : observable (c_pc c) = true -> observable (c_pc (thread_token b c)) = true.
+Proof.
+  intros O. unfold thread_token. destruct (step c (MThread b)); auto using settle_observable.
+Qed.
+
+Lemma cmd_pc c k c' : step c (MCmd k) = Some c' -> c_pc c' = c_pc c.
+Proof.
+  intros H. unfold step, step_with in H. destruct c as [p r s t n w tr].
+  destruct k, p; simpl in H; split_ifs H; try discriminate H; injection H as <-; reflexivity.
+Qed.
+
+Lemma do_token_observable c t : observable (c_pc c) = true -> observable (c_pc (do_token c t)) = true.
+Proof.
+  intros O. destruct t; unfold do_token; auto using thread_token_observable.
+  destruct (step c (MCmd k)) as [c1|] eqn:E; auto.
+  pose proof (cmd_pc _ _ _ E) as P. unfold wake. rewrite P.
+  destruct (c_pc c) eqn:Q; try (rewrite P; auto; fail).
+  destruct (c_woken c1); [apply thread_token_observable|]; rewrite P; auto.
+Qed.
+
+Lemma run_word_observable w c : observable (c_pc c) = true -> observable (c_pc (run_word c w)) = true.
+Proof.
+  revert c. induction w as [|t w IH]; simpl; intros c O; auto using do_token_observable.
+Qed.
+
+Lemma free_run_exits f c : reachable c -> c_td c = true -> dist (c_pc c) <= f -> c_pc (free_run f c) = PExited.
+Proof.
+  revert c. induction f as [|f IH]; simpl; intros c R T D.
+  - apply dist_0. lia.
+  - change (tstep true c) with (step c (MThread true)).
+    destruct (step c (MThread true)) as [c1|] eqn:E.
+    + destruct (td_move _ _ _ T E) as (T1 & D1). simpl in D1.
+      apply IH; auto; [eapply R_step; eauto | lia].
+    + destruct (c_pc c) eqn:P; auto;
+        destruct (td_thread_enabled c true R T) as (c2 & X); try congruence.
+Qed.
+
+Lemma free_run_exited f c : c_pc c = PExited -> free_run f c = c.
+Proof. destruct f; simpl; auto. destruct c as [p r s t n w tr]; simpl. intros ->. reflexivity. Qed.
+
+Lemma tstep_td b c c' : tstep b c = Some c' -> c_td c' = c_td c.
+Proof.
+  destruct c as [p r s t n w tr]. destruct p; simpl; intros H; split_ifs H; try discriminate H;
+  injection H as <-; reflexivity.
+Qed.
+
+Lemma settle_td f c : c_td (settle f c) = c_td c.
+Proof.
+  revert c. induction f as [|f IH]; simpl; intros c; auto.
+  destruct (observable (c_pc c)); auto.
+  destruct (tstep false c) as [c1|] eqn:E; auto. rewrite IH. eapply tstep_td; eauto.
+Qed.
+
+Lemma thread_token_td b c : c_td (thread_token b c) = c_td c.
+Proof.
+  unfold thread_token. change (step c (MThread b)) with (tstep b c).
+  destruct (tstep b c) as [c1|] eqn:E; auto. rewrite settle_td. eapply tstep_td; eauto.
+Qed.
+
+Lemma wake_td c : c_td (wake c) = c_td c.
+Proof. unfold wake. destruct (c_pc c); auto. destruct (c_woken c); auto using thread_token_td. Qed.
+
+Lemma teardown_token_td c : mutex_free (c_pc c) = true -> c_td (do_token c (KCmd Teardown)) = true.
+Proof.
+  intros M. unfold do_token. destruct c as [p r s t n w tr]. simpl in *. rewrite M.
+  rewrite wake_td. reflexivity.
+Qed.
+
+(* end of every schedule word: teardown at the point reached, then the thread
+   running freely with run_condition = true, always exits; wait is enabled *)
+Lemma finish_exits c : reachable c -> observable (c_pc c) = true ->
+  c_pc (finish c) = PExited /\ exists tr, c_trace (finish c) = ECmd Wait :: tr.
+Proof.
+  intros R O. unfold finish.
+  set (c1 := match c_pc c with PHeld => thread_token true c | _ => c end).
+  assert (R1 : reachable c1) by (unfold c1; destruct (c_pc c); auto using thread_token_reachable).
+  assert (O1 : observable (c_pc c1) = true /\ c_pc c1 <> PHeld).
+  { unfold c1. destruct (c_pc c) eqn:P; try (rewrite P; split; [auto|discriminate]).
+    split; [apply thread_token_observable; rewrite P; auto|].
+    unfold thread_token. destruct c as [p r s t n w tr]; simpl in *; subst p; simpl.
+    destruct (r || t); simpl; discriminate. }
+  destruct O1 as (O1 & N1).
+  set (c2 := match c_pc c1 with PExited => c1 | _ => do_token c1 (KCmd Teardown) end).
+  assert (X : reachable c2 /\ (c_pc c2 = PExited \/ c_td c2 = true)).
+  { unfold c2. destruct (c_pc c1) eqn:P; try (split; [auto|left; auto]; fail);
+      try discriminate O1; try congruence;
+      (split; [apply do_token_reachable; auto|right]);
+      apply teardown_token_td; rewrite P; reflexivity. }
+  destruct X as (R2 & X).
+  assert (E3 : c_pc (free_run 40 c2) = PExited).
+  { destruct X as [X|X]; [rewrite free_run_exited; auto|].
+    apply free_run_exits; auto. pose proof (dist_bound (c_pc c2)). unfold exit_bound in *. lia. }
+  remember (free_run 40 c2) as c3. destruct c3 as [p r s t n w tr]; simpl in *. subst p. simpl.
+  split; eauto.
+Qed.
